@@ -57,7 +57,9 @@ class Problem:
     def local(self, r):
         return np.ascontiguousarray(self.X[self.l2g[r]]).copy()
 
-    def draw_stop(self, ctx, max_k=8):
+    def draw_stop(self, ctx, max_k=None):
+        if max_k is None:
+            max_k = 16 if (ctx.tier == 'thorough' and self.n > 60) else 8
         """Pick a stopping rule: n_clusters, cutoff or both; the cutoff is put
         strictly between two consecutive radii of the greedy replay (or far
         below / above all of them)."""
